@@ -14,6 +14,7 @@ CHECK = {"C": "icontract.InvariantCheckEvent.CALL", "S": "icontract.InvariantChe
 
 PRELUDE = '''\
 import dataclasses
+import functools
 import typing
 import icontract
 LOG = []
@@ -81,6 +82,14 @@ MEMBERS = '''\
     def __repr__(self):
         LOG.append(("body", "__repr__"))
         return "K()"
+    @functools.singledispatchmethod
+    def sd(self, a):
+        LOG.append(("body", "sd"))
+        return "object"
+    @sd.register
+    def _(self, a: int):
+        LOG.append(("body", "sd"))
+        return "int"
 '''
 
 GETATTRIBUTE = '''\
@@ -209,13 +218,14 @@ OPS = {
     "setattr": ("set", lambda o, ns: setattr(o, "v", 7), None),
     "read": ("never", lambda o, ns: o.v, None),
     "reinit_boom": ("boom", lambda o, ns: o.__init__(True), None),
+    "sd": ("call", lambda o, ns: o.sd(1), "sd"),
     "extra": ("call", lambda o, ns: o.extra(), "extra"),
     "_cprot": ("never", lambda o, ns: o._cprot(), "_cprot"),
 }
 
 
 def ops_for(spec):
-    ops = ["pub", "__call__", "__bool__", "apub", "p.get", "p.set", "p.del", "call_priv", "_prot", "__priv", "cm", "sm", "repr", "setattr", "read"]
+    ops = ["pub", "__call__", "__bool__", "apub", "p.get", "p.set", "p.del", "call_priv", "_prot", "__priv", "cm", "sm", "repr", "setattr", "read", "sd"]
     if spec["style"] == "namedtuple":
         ops = [o for o in ops if o not in ("setattr", "__bool__", "p.set", "p.del")]
     if spec["child"] and spec["child"]["adds"]:
